@@ -93,6 +93,10 @@ Plan gen_hbprod(Rng &r, bool thorough) {
     auto ms = [&](std::initializer_list<int64_t> l) { return r.pick<int64_t>(l) * unit; };
     p.cfg["resetininit"] = r.chance(1, 5) ? r.range(1, 2) : 0; p.cfg["nodeid"] = r.pick<int64_t>({1, 5, 64, 100}); p.cfg["hb"] = r.chance(1, 6) ? 0 : ms({1, 2, 3, 5, 10, 20, 50}); p.cfg["syncprod"] = r.below(2); p.cfg["synccycle"] = ms({1, 2, 5, 10}) * 1000;
     p.cfg["cons0"] = ms({3, 5, 10, 30}); p.cfg["cons1"] = r.chance(1, 2) ? 0 : ms({4, 10}); p.cfg["ev0"] = r.chance(1, 4) ? 0 : ms({1, 2, 5, 10, 20}); p.cfg["inh0"] = r.chance(1, 2) ? 0 : ms({1, 3, 10}) * 10; p.cfg["ev1"] = r.chance(1, 2) ? 0 : ms({2, 10}); p.cfg["inh1"] = r.chance(1, 2) ? 0 : ms({2, 5}) * 10;
+    if (r.chance(1, 15)) {   // long heartbeat times on fast timer clocks (time * frequency beyond 32 bit): the producer alone, periods of millions of ticks
+        f = r.pick<uint32_t>({100000, 100000, 80000, 65538, 1000000, 99999}); p.cfg["freq"] = f; p.cfg["hb"] = 0; p.cfg["syncprod"] = 0; p.cfg["cons0"] = 0; p.cfg["cons1"] = 0; p.cfg["ev0"] = 0; p.cfg["ev1"] = 0; p.cfg["inh0"] = 0; p.cfg["inh1"] = 0; p.cfg["resetininit"] = 0;
+        int k = (int)r.range(1, 4); for (int i = 0; i < k; i++) { int64_t v = r.pick<int64_t>({65535, 50000, 42950, 42949, 40000, 60000, 1000}); p.ops.push_back(Op("hbwrite", {v, (int64_t)r.below(2)})); p.ops.push_back(Op("tick", {v * (int64_t)f / 1000 * r.range(1, 3) + r.range(0, 5)})); if (r.chance(1, 3)) p.ops.push_back(Op("nmt", {r.pick<int64_t>({1, 2, 128}), 0})); }
+        return p; }
     int n = (int)r.range(3, thorough ? 50 : 25);
     for (int i = 0; i < n; i++) {
         int c = (int)r.below(20);
